@@ -56,14 +56,14 @@ def _jax():
 def cpp_cases(draw):
     L = draw(gen.logfloat(-3, 3))
     th = draw(gen.angle())
-    a = draw(st.lists(st.floats(-10, 10), min_size=2, max_size=2))
+    a = draw(st.lists(gen.floats(-10, 10), min_size=2, max_size=2))
     a = [a[0] * L, a[1] * L] if draw(st.booleans()) else a
     pts = []
     for _ in range(12):
         cls = draw(st.sampled_from(['strip', 'beyond_b', 'before_a', 'on_line_in', 'on_line_out', 'at_a', 'at_b', 'near_a', 'near_b']))
         dist = draw(gen.logfloat(-12, 3)) * draw(st.sampled_from([-1.0, 1.0]))
-        s = {'strip': draw(st.floats(0.0, 1.0)), 'beyond_b': 1.0 + draw(gen.logfloat(-12, 2)),
-             'before_a': -draw(gen.logfloat(-12, 2)), 'on_line_in': draw(st.floats(0.0, 1.0)),
+        s = {'strip': draw(gen.floats(0.0, 1.0)), 'beyond_b': 1.0 + draw(gen.logfloat(-12, 2)),
+             'before_a': -draw(gen.logfloat(-12, 2)), 'on_line_in': draw(gen.floats(0.0, 1.0)),
              'on_line_out': draw(st.sampled_from([-1.0, 1.0])) * (1.0 + draw(gen.logfloat(-3, 2))),
              'at_a': 0.0, 'at_b': 1.0, 'near_a': draw(st.integers(-4, 4)) * 1e-16, 'near_b': 1.0 + draw(st.integers(-4, 4)) * 1e-16}[cls]
         if cls in ('on_line_in', 'on_line_out', 'at_a', 'at_b'):
@@ -140,22 +140,22 @@ def check_cpp(case):
 @st.composite
 def mortar_cases(draw):
     LA = draw(gen.logfloat(-2, 2))
-    ratio = draw(gen.logfloat(-2, 2)) if draw(st.booleans()) else draw(st.floats(0.3, 3.0))
+    ratio = draw(gen.logfloat(-2, 2)) if draw(st.booleans()) else draw(gen.floats(0.3, 3.0))
     LB = LA * ratio
     cls = draw(st.sampled_from(['none', 'partial', 'nested', 'touching', 'identical', 'partial', 'tilted', 'tilted_none']))
-    gap = draw(st.floats(0.01, 0.2)) * min(LA, LB) * draw(st.sampled_from([1.0, 1.0, -1.0]))
+    gap = draw(gen.floats(0.01, 0.2)) * min(LA, LB) * draw(st.sampled_from([1.0, 1.0, -1.0]))
     tilt = 0.0
     # B is described in A's frame: A from (0,0) to (LA,0), outward normal (0,-1); B lies at y = -gap, anti-parallel
     if cls in ('partial', 'tilted'):
-        f = draw(st.floats(0.05, 0.95))
+        f = draw(gen.floats(0.05, 0.95))
         x1 = LA - f * min(LA, LB) if draw(st.booleans()) else f * min(LA, LB) - LB
         if cls == 'tilted':
-            tilt = draw(st.floats(-1.0, 1.0))
+            tilt = draw(gen.floats(-1.0, 1.0))
     elif cls == 'nested':
         if LB < LA:
-            x1 = draw(st.floats(0.0, 1.0)) * (LA - LB)
+            x1 = draw(gen.floats(0.0, 1.0)) * (LA - LB)
         else:
-            x1 = -draw(st.floats(0.0, 1.0)) * (LB - LA)
+            x1 = -draw(gen.floats(0.0, 1.0)) * (LB - LA)
     elif cls == 'touching':
         x1 = LA if draw(st.booleans()) else -LB
     elif cls == 'identical':
@@ -164,13 +164,13 @@ def mortar_cases(draw):
         if draw(st.booleans()):
             gap = 0.0
     else:
-        sep = (1.0 + draw(st.floats(0.0, 3.0))) * max(LA, LB)
+        sep = (1.0 + draw(gen.floats(0.0, 3.0))) * max(LA, LB)
         x1 = LA + sep if draw(st.booleans()) else -LB - sep
         if cls == 'tilted_none':
-            tilt = draw(st.floats(-1.0, 1.0))
+            tilt = draw(gen.floats(-1.0, 1.0))
     s = draw(st.sampled_from([1e-9, 1e-7, 1e-5, 1e-3, 0.03]))
     th = draw(gen.angle())
-    tr = draw(st.lists(st.floats(-10, 10), min_size=2, max_size=2))
+    tr = draw(st.lists(gen.floats(-10, 10), min_size=2, max_size=2))
     return {'cls': cls, 'LA': LA, 'LB': LB, 'x1': x1, 'gap': gap, 'tilt': tilt, 's': s, 'theta': th, 'shift': tr}
 
 
@@ -250,14 +250,14 @@ def check_mortar(case):
 def area_cases(draw):
     nA = draw(st.integers(1, 4))
     nB = draw(st.integers(1, 4))
-    xa = sorted(set([0.0] + draw(st.lists(st.floats(0.05, 0.95), min_size=nA - 1, max_size=nA - 1, unique=True)) + [1.0]))
-    xb = sorted(set([0.0] + draw(st.lists(st.floats(0.05, 0.95), min_size=nB - 1, max_size=nB - 1, unique=True)) + [1.0]))
+    xa = sorted(set([0.0] + draw(st.lists(gen.floats(0.05, 0.95), min_size=nA - 1, max_size=nA - 1, unique=True)) + [1.0]))
+    xb = sorted(set([0.0] + draw(st.lists(gen.floats(0.05, 0.95), min_size=nB - 1, max_size=nB - 1, unique=True)) + [1.0]))
     LA = draw(gen.logfloat(-1, 1))
-    LB = LA * draw(st.floats(0.3, 3.0))
-    x1 = draw(st.floats(-1.2, 1.2)) * LA
-    gap = draw(st.floats(0.01, 0.2)) * min(LA, LB)
+    LB = LA * draw(gen.floats(0.3, 3.0))
+    x1 = draw(gen.floats(-1.2, 1.2)) * LA
+    gap = draw(gen.floats(0.01, 0.2)) * min(LA, LB)
     th = draw(gen.angle())
-    tr = draw(st.lists(st.floats(-5, 5), min_size=2, max_size=2))
+    tr = draw(st.lists(gen.floats(-5, 5), min_size=2, max_size=2))
     return {'xa': xa, 'xb': xb, 'LA': LA, 'LB': LB, 'x1': x1, 'gap': gap, 'theta': th, 'shift': tr}
 
 
@@ -316,22 +316,22 @@ def levelset_cases(draw):
     coords = onp.array(mesh['coords'])
     nn = coords.shape[0]
     amp = draw(gen.logfloat(-6, 0)) * 0.3
-    U = onp.array(draw(st.lists(st.floats(-1, 1), min_size=2 * nn, max_size=2 * nn))).reshape(nn, 2) * amp
+    U = onp.array(draw(st.lists(gen.floats(-1, 1), min_size=2 * nn, max_size=2 * nn))).reshape(nn, 2) * amp
     kind = ['plane', 'corner', 'sphere'][draw(st.integers(0, 2))]
     where = ['mixed', 'clear', 'mixed', 'inside'][draw(st.integers(0, 3))]     # mesh occupies [0,1]^2
     lo, hi = {'mixed': (0.15, 0.85), 'clear': (1.2, 1.6), 'inside': (-0.6, -0.2)}[where]
     if kind == 'plane':                       # phi = yLoc - y
-        par = [draw(st.floats(lo, hi))]
+        par = [draw(gen.floats(lo, hi))]
     elif kind == 'corner':                    # phi = min(x - x0, y - y0)
         c = {'mixed': (0.15, 0.85), 'clear': (-0.6, -0.2), 'inside': (1.2, 1.6)}[where]
-        par = [draw(st.floats(*c)), draw(st.floats(*c))]
+        par = [draw(gen.floats(*c)), draw(gen.floats(*c))]
     else:                                     # phi = r - R
         if where == 'mixed':
-            par = [draw(st.floats(0.2, 0.8)), draw(st.floats(0.2, 0.8)), draw(st.floats(0.2, 0.6))]
+            par = [draw(gen.floats(0.2, 0.8)), draw(gen.floats(0.2, 0.8)), draw(gen.floats(0.2, 0.6))]
         elif where == 'clear':
-            par = [draw(st.floats(-1.5, -0.8)), draw(st.floats(-1.5, -0.8)), draw(st.floats(0.05, 0.5))]
+            par = [draw(gen.floats(-1.5, -0.8)), draw(gen.floats(-1.5, -0.8)), draw(gen.floats(0.05, 0.5))]
         else:
-            par = [draw(st.floats(0.3, 0.7)), draw(st.floats(0.3, 0.7)), draw(st.floats(1.5, 3.0))]
+            par = [draw(gen.floats(0.3, 0.7)), draw(gen.floats(0.3, 0.7)), draw(gen.floats(1.5, 3.0))]
     qdeg = draw(st.integers(1, 5))
     k = draw(gen.logfloat(-2, 4))
     return {'mesh': mesh, 'U': U.tolist(), 'kind': kind, 'par': par, 'qdeg': qdeg, 'stiffness': k}
